@@ -57,7 +57,7 @@ class C08(PropBase):
                 "observe_pending": True, "illegal_p": rng.choice([0.05, 0.2, 0.5]), "byz_p": rng.choice([0.0, 0.0, 0.02, 0.06]),
                 "chunk": rng.choice(["whole", "mixed", "mixed", "byte"]), "term_p": rng.choice([0.0, 0.0, 0.01, 0.04]),
                 "max_out": rng.choice([1, 2, 3, 6]),
-                "big": rng.choice([0.02, 0.1])}
+                "big": rng.choice([0.02, 0.1]), "style": policy.wire_style(rng)}
 
     def make(self, init):
         st = St(World(init))
@@ -293,9 +293,9 @@ class C08(PropBase):
                             "model says %s" % ("ok" if okk else "ProtocolError", [(lt["kind"], lt["id"]) for lt in lights], pre.st,
                                                ev["st_after"], ev["mst_after"]))
         if not okk:
+            # (what the closing receive itself does to the outgoing stream is not constrained by C08: the docstring of
+            # receive() even speaks of a notice being available in data_to_send; only LATER operations must produce nothing)
             st.hit("closed_by_protocol_error")
-            if ev["pend_after"] != ev["pend_before"]:
-                raise Violation(P, "bytes-after-closure/receive", "a receive that closed the session changed its outgoing stream")
 
     def finish(self, st):
         """Post-closure sweep: every API call and receive on every session the model knows closed."""
